@@ -1,0 +1,26 @@
+//go:build verif
+
+package util
+
+import gotime "time"
+
+// VerifInterval overrides the tick interval of WithRepeat when > 0.
+var VerifInterval gotime.Duration
+
+// VerifRepeatDone, if set, is asked before every iteration (with the number of
+// iterations completed so far) whether the endless loop should end.
+var VerifRepeatDone func(int64) bool
+
+func verifInterval(d gotime.Duration) gotime.Duration {
+	if VerifInterval > 0 {
+		return VerifInterval
+	}
+	return d
+}
+
+func verifRepeatDone(n int64) bool {
+	if VerifRepeatDone != nil {
+		return VerifRepeatDone(n)
+	}
+	return false
+}
